@@ -526,3 +526,29 @@ theorem specNotifs_owned (r' : T) (recv : Path) (ents : List (Key × Option T ×
   · simp [h]
 
 end Pg.C09
+
+namespace Pg.C09
+open T
+open Pg.C08 (Atom Key)
+
+theorem mem_reindex {x : Key × T} (xs : List (Key × T)) (h : x ∈ reindex xs) : ∃ y ∈ xs, y.2 = x.2 := by
+  simp only [reindex, List.mem_map] at h
+  obtain ⟨⟨i, t⟩, hz, rfl⟩ := h
+  have := (List.of_mem_zip hz).2
+  simp only [List.mem_map] at this
+  obtain ⟨y, hy, rfl⟩ := this
+  exact ⟨y, hy, rfl⟩
+
+/-- A List whose change handler ran holds no MISSING_VALUE placeholder afterwards. -/
+theorem purgeSet_list_clean (paths : List Path) (hne : paths.isEmpty = false) (m : Meta) (items : List (Key × T)) :
+    ∃ m' items', purgeSet paths (.node m .list items) = .node m' .list items' ∧
+      ∀ kv ∈ items', isMissingLeaf kv.2 = false := by
+  refine ⟨{ m with cache := none, miss := none },
+    reindex ((purgeItems paths items).filter fun kv => !isMissingLeaf kv.2), by simp [purgeSet, hne], ?_⟩
+  intro kv hkv
+  obtain ⟨y, hy, hyx⟩ := mem_reindex _ hkv
+  have := (List.mem_filter.1 hy).2
+  rw [← hyx]
+  simpa using this
+
+end Pg.C09
